@@ -31,12 +31,12 @@ TIMEOUT = 900
 
 
 def cases(tier, seed):
-    forms = ["bare", "attr", "alias", "wrapped", "pkginit", "initroot", "chain", "pinned", "lambda", "factory", "xdeco", "nestedlocal"]
+    forms = ["bare", "attr", "alias", "wrapped", "pkginit", "initroot", "chain", "pinned", "lambda", "factory", "xdeco", "nestedlocal", "prefix"]
     for form in forms:
         edges = all_edges(3, form)
         graphs = [(kinds, mask) for kinds in itertools.product(["memento", "plain"], repeat=2)
                   for mask in range(1 << len(edges))]
-        if tier == "quick" and form in ("lambda", "factory", "xdeco", "nestedlocal"):  # quick: these forms without self-loops
+        if tier == "quick" and form in ("lambda", "factory", "xdeco", "nestedlocal", "prefix"):  # quick: these forms without self-loops
             loops = sum(1 << i for i, (u, v) in enumerate(edges) if u == v)
             graphs = [(kinds, mask) for kinds, mask in graphs if not mask & loops]
         for i in range(0, len(graphs), 64):
@@ -132,7 +132,16 @@ def render_small(pkg, n, kinds, edges, form):
         texts[mod] += aliases[mod]
     if form == "initroot":  # the package imports its sub-module after defining the root
         texts["__init__"] += ["from %s.a import %s" % (pkg, ", ".join("n%d" % u for u in range(1, n)))]
-    return {k: ("\n".join(v) + "\n" if v else "") for k, v in texts.items()}
+    out = {k: ("\n".join(v) + "\n" if v else "") for k, v in texts.items()}
+    if form == "prefix":  # every function's name is the beginning of the next one's: n0, n0x, n0xy, ...
+        import re
+
+        for u in range(n - 1, 0, -1):
+            out = {k: re.sub(r"\bn%d\b" % u, PREFIX_NAMES[u], v) for k, v in out.items()}
+    return out
+
+
+PREFIX_NAMES = ["n0", "n0x", "n0xy", "n0xyz"]
 
 
 def oracle_small(n, kinds, edges):
@@ -190,11 +199,16 @@ def small_child(arg):
     a = importlib.import_module(pkg + ".a")
     b = importlib.import_module(pkg + ".b")
     out = {}
+    real = {("n%d" % u): PREFIX_NAMES[u] for u in range(4)} if arg.get("form") == "prefix" else {}
+    back = {v: k for k, v in real.items()}
+    unmap = lambda o: {k: (sorted(back.get(x, x) for x in v) if k != "df_edges" else sorted([back.get(e[0], e[0]), back.get(e[1], e[1])] for e in v))
+                       for k, v in o.items()}
     for name in arg["names"]:
-        fn = getattr(b, name, None) or getattr(a, name, None) or getattr(sys.modules[pkg], name)
-        out[name] = observe(fn)
+        attr = real.get(name, name)
+        fn = getattr(b, attr, None) or getattr(a, attr, None) or getattr(sys.modules[pkg], attr)
+        out[name] = unmap(observe(fn))
         if name == "n0":  # the same questions asked of a modifier clone of the root
-            out["n0 (modifier clone)"] = observe(fn.force_local())
+            out["n0 (modifier clone)"] = unmap(observe(fn.force_local()))
     return out
 
 
@@ -209,7 +223,7 @@ def run_small(case, out, fail):
             texts = render_small(pkg, n, kinds, edges, "bare" if form == "bare4" else form)
             try:
                 got = procs.in_child(small_child, {"pkg": pkg, "root": sc.path("g%d" % gi), "texts": texts,
-                                                   "names": sorted(want)})
+                                                   "names": sorted(want), "form": form})
             except procs.ChildFailed as e:
                 fail("computing dependencies of a reference graph raises", "kinds %s edges %s form %s: %s" % (kinds, edges, form, str(e)[-600:]))
                 continue
